@@ -115,6 +115,37 @@ pub fn evaluate_bitrev(coeffs: &[Felt], log_n: u32) -> Vec<Felt> {
     }
 }
 
+/// Coefficients of the polynomial of degree < n through (xs[i], ys[i]) (xs distinct). O(n^2).
+pub fn lagrange_interpolate(xs: &[Felt], ys: &[Felt]) -> Vec<Felt> {
+    let n = xs.len();
+    // master polynomial M(x) = prod (x - xs[i])
+    let mut m = vec![Felt::ONE];
+    for x in xs {
+        let mut next = vec![Felt::ZERO; m.len() + 1];
+        for (i, c) in m.iter().enumerate() {
+            next[i + 1] += *c;
+            next[i] -= *c * x;
+        }
+        m = next;
+    }
+    let mut out = vec![Felt::ZERO; n];
+    for i in 0..n {
+        // q(x) = M(x) / (x - xs[i]) by synthetic division
+        let mut q = vec![Felt::ZERO; n];
+        let mut carry = Felt::ZERO;
+        for k in (0..n).rev() {
+            carry = m[k + 1] + carry * xs[i];
+            q[k] = carry;
+        }
+        let denom = eval_poly(&q, xs[i]);
+        let scale = ys[i] * inv(denom);
+        for k in 0..n {
+            out[k] += q[k] * scale;
+        }
+    }
+    out
+}
+
 // ------------------------------------------------------------------------------------------
 // transcript
 // ------------------------------------------------------------------------------------------
